@@ -14,7 +14,8 @@ RULE = (
     'Planted datasets with >= 3 gap-free stretches are loaded, then each of the steps classify, set-zeta-grid, '
     'set-curvature, rise, recession is run through spowtd.user_interface.main under a sqlite3 connection factory '
     'that logs every execute / executemany / executescript / commit.  For EVERY statement index of the fault-free '
-    'trace an sqlite3.OperationalError is injected before and after the statement; the process is SIGKILLed (forked '
+    'trace an sqlite3.OperationalError is injected before and after the statement, and the statement is aborted part-way by '
+    'SQLite itself (progress handler returning non-zero after 20 virtual-machine steps); the process is SIGKILLed (forked '
     'child) before and after statement indices (quick: every 3rd, thorough: every one); executemany calls are '
     'interrupted after r parameter rows (quick: first, middle, last; thorough: every row).  After each fault the '
     'logical dump of the file (sorted rows of every table, read through a fresh connection so that a hot journal is '
@@ -34,6 +35,7 @@ REQUIRED = {
     tier: {
         'exception-faults-injected': 400,
         'kill-faults-injected': 60,
+        'interrupt-faults-injected': 40,
         'row-faults-injected': 6,
         'faults-after-first-write': 200,
         'reruns-after-fault-checked': 400,
@@ -119,8 +121,10 @@ def make_dataset(ctx, rng, index):
 
     case = None
     for _ in range(200):
-        cand = gen_planted.gen(rng, gaps=2, n_events=rng.randint(5, 9), step=rng.choice([1800, 3600]), grid_step=rng.choice([1.0, 2.0, 2.5]))
-        if len(cand['rain']) >= 260 or len(cand['dropped']) < 2:
+        small = ctx.tier == 'quick'
+        cand = gen_planted.gen(rng, gaps=2, n_events=rng.randint(4, 6) if small else rng.randint(5, 9), step=rng.choice([1800, 3600]),
+                               grid_step=rng.choice([2.0, 2.5, 5.0]) if small else rng.choice([1.0, 2.0, 2.5]))
+        if len(cand['rain']) >= (170 if small else 260) or len(cand['dropped']) < 2:
             continue
         probe = os.path.join(ctx.workdir, 'probe.sqlite3')
         if curves_common.make_curves_db(ctx, cand, probe) is None:
@@ -196,6 +200,18 @@ def enumerate_step_faults(ctx, case, name, argv, cur, tag, sizes):
                 continue
             rec.hit('exception-faults-injected')
             verdict('error', at, mode)
+        if log[at - 1][0] in ('execute', 'executemany'):
+            # SQLite aborts the statement itself after a few VM steps
+            rec.case()
+            fresh_copy(cur, work)
+            status, exc, _, _, _, fired = run_step(argv, work, at, 'interrupt')
+            if fired and exc is not None:
+                rec.hit('interrupt-faults-injected')
+                verdict('interrupt', at, 'interrupt')
+            elif fired:
+                rec.violation('interrupted-statement-swallowed:' + name, {'statement_index': at}, dict(scase, fault=[at, 'interrupt', None]), 'fault')
+            else:
+                rec.hit('interrupts-too-late (statement finished within the step budget)')
         if (at - 1) % sizes['kill_every'] == 0 or at == N:
             for mode in ('kill-before', 'kill-after'):
                 rec.case()
